@@ -27,6 +27,9 @@ class _InertPtr(object):
     def finish(self, **kw):
         return None
 
+    def kill(self, **kw):
+        pass
+
 
 edge_smtp.PtrLookup = _InertPtr       # no DNS in the sandbox (harness-side seam)
 
